@@ -612,8 +612,11 @@ def model_request(case, obs):
         return None
     if G()['by_text']:
         # the model is the baseline translation: resolve by call text, then by the phase of trace_call
+        st = text_stack(obs)
+        if any(t == '?' and k in G()['tables'] for k, t in st):
+            return None         # a call the extractor does not list (trivial getter): judged by the oracle only
         return {'op': 'resolve_text', 'cls': case['fault']['cls'], 'region': (obs.get('region') or 'other').split(':')[0],
-                'stack': text_stack(obs)}
+                'stack': st, 'has_try': {k: True for k, _ in st if k in G()['tables']}}
     if obs.get('stack') is None:
         return None
     return {'op': 'resolve', 'cls': case['fault']['cls'], 'stack': obs['stack']}
